@@ -1,9 +1,13 @@
 """Per-property manifest entries that grow as checks are built (merged by tools_gen_manifest.py)."""
-CLAIMED = {}
+CLAIMED = {
+ "C13": dict(level="fault_enumeration", ref="DESIGN.md §2, §4",
+    technique="deterministic simulation with fault injection: frame-level fault injector (drop/dup/swap/delay/truncate/corrupt/stray/empty/random/sender crash/snooper restart) on a simulated CAN bus, systematic single faults at every position plus seeded multi-fault search",
+    text="Per seeded well-formed base stream every fault kind is applied at every position (then seeded double faults, random multi-fault sequences and fully random frame sequences); the real reassembler behind direct/text/bus entry points is judged on never raising, reporting only what the delivered frames justify (subsequence DP), one report per first frame, and reassembling a fresh transfer after the last fault. Enumeration is complete only per sampled base stream; base streams are sampled.",
+    note="Trusts the oracle's reading of ISO 15765-2 (what a report may consist of), the reference segmenter, python-can Message. Text formats cannot express empty frames."),
+}
 PENDING = {
  "C05": "claimed by design (DESIGN.md §5) but its check is not built yet in this commit",
  "C11": "claimed by design (DESIGN.md §9) but its check is not built yet in this commit",
- "C13": "claimed by design (DESIGN.md §4) but its check is not built yet in this commit",
  "C14": "claimed by design (DESIGN.md §6) but its check is not built yet in this commit",
  "C16": "claimed by design (DESIGN.md §7) but its check is not built yet in this commit",
  "C17": "claimed by design (DESIGN.md §8) but its check is not built yet in this commit",
